@@ -49,6 +49,11 @@ func (c *queuecontroller) syncQueue(queue *schedulingv1beta1.Queue, updateStateF
 	klog.V(4).Infof("Begin to sync queue %s.", queue.Name)
 	defer klog.V(4).Infof("End sync queue %s.", queue.Name)
 
+	// updateStateFn was chosen for the state of the object this function was called
+	// with; updateQueueParent may hand back the API server's (newer) object, so keep
+	// comparing the computed state with the state the decision was made for.
+	observedState := queue.Status.State
+
 	// add parent queue if parent not specified
 	queue, err := c.updateQueueParent(queue)
 	if err != nil {
@@ -95,12 +100,12 @@ func (c *queuecontroller) syncQueue(queue *schedulingv1beta1.Queue, updateStateF
 	if updateStateFn != nil {
 		updateStateFn(&queueStatus, podGroups)
 	} else {
-		queueStatus.State = queue.Status.State
+		queueStatus.State = observedState
 	}
 
 	newQueue := queue.DeepCopy()
 	// ignore update when state does not change
-	if queueStatus.State != queue.Status.State {
+	if queueStatus.State != observedState {
 		queueStatusApply := v1beta1apply.QueueStatus().WithState(queueStatus.State)
 		queueApply := v1beta1apply.Queue(queue.Name).WithStatus(queueStatusApply)
 		if newQueue, err = c.vcClient.SchedulingV1beta1().Queues().ApplyStatus(context.TODO(), queueApply, metav1.ApplyOptions{FieldManager: controllerName}); err != nil {
